@@ -1,8 +1,10 @@
 (* Correspondence entry point for C17.
-     CStream   a subscription over n events: per event the response obtained
-               by executing the same selection as a plain query with that
-               event as root value on a fresh executor (the oracle for [run]),
-               the observed per-event responses, the observed trace of the
+     CStream   a subscription over n events: per event the data and errors
+               obtained by executing the same selection as a plain query with
+               that event as root value on a fresh executor (the oracle for
+               [run]; None = that execution raised a non-field exception),
+               the observed per-event responses (None = __anext__ raised and
+               the consumer went on reading), the observed trace of the
                source and the consumer, whether the stream ended, and the
                source's consumption counter at the end
      CRefusal  a request that must be refused: the facts about it (by
@@ -14,27 +16,31 @@ From PyGql Require Import Run.Driver Exec.ResponseModel Spec.ResponseSpec Exec.S
 Inductive obs_class := OExecutionError | ORuntimeError | OVariablesCoercionError | OOther | ONoException.
 
 Inductive case_C17 :=
-| CStream (fresh : list (json * list json)) (observed : list json)
+| CStream (fresh : list (option json * list json)) (observed : list (option json))
           (trace : list trace_ev) (ended : bool) (consumed : N)
 | CRefusal (q : sub_request) (cls : obs_class) (resolver_called : bool) (consumed : N).
 
 (* the model instantiated: events are indices into the oracle table, the
    executor's caches carry nothing observable *)
-Definition run_table (fresh : list (json * list json)) (c : unit) (k : nat)
-  : unit * json * list json :=
+Definition run_table (fresh : list (option json * list json)) (c : unit) (k : nat)
+  : unit * option json * list json :=
   match nth_error fresh k with
   | Some (d, es) => (c, d, es)
-  | None => (c, JNull, [])
+  | None => (c, None, [])
   end.
 
-(* GraphQLResult(data, errors).response() *)
-Definition resp_of (r : json * list json) : json :=
-  JObj ((match snd r with [] => [] | es => [(k_errors, JArr es)] end) ++ [(k_data, fst r)]).
+(* GraphQLResult(data, errors).response(), or the exception *)
+Definition resp_of (r : option json * list json) : option json :=
+  match fst r with
+  | Some d => Some (JObj ((match snd r with [] => [] | es => [(k_errors, JArr es)] end) ++ [(k_data, d)]))
+  | None => None
+  end.
 
-Fixpoint jsons_eqb (a b : list json) : bool :=
+Fixpoint jsons_eqb (a b : list (option json)) : bool :=
   match a, b with
   | [], [] => true
-  | x :: a', y :: b' => json_eqb (erase_messages x) (erase_messages y) && jsons_eqb a' b'
+  | Some x :: a', Some y :: b' => json_eqb (erase_messages x) (erase_messages y) && jsons_eqb a' b'
+  | None :: a', None :: b' => jsons_eqb a' b'
   | _, _ => false
   end.
 
@@ -62,9 +68,9 @@ Definition class_matches (c : exn_class) (o : obs_class) : bool :=
   | _, _ => false
   end.
 
-Definition model_stream (fresh : list (json * list json)) :=
+Definition model_stream (fresh : list (option json * list json)) :=
   match subscribe unit nat json tt all_ok (seq 0 (length fresh)) with
-  | (Started s0, true, O) => Some (drain unit nat json json (run_table fresh) s0)
+  | (Started s0, true, O) => Some (drain unit nat (option json) json (run_table fresh) s0)
   | _ => None
   end.
 
